@@ -386,6 +386,10 @@ impl<'a> View<'a> {
         a.how == Some(HOW_COMPLETED)
             && self.final_stopped(a).is_some()
             && !self.cbs_of(a).any(|c| c.cb == Cb::Started && c.exit.is_some() && !c.ok)
+            // ground truth of the injector: an actor into which a failure was injected (started
+            // error, panic, cancellation, handler timeout with fail_on_timeout) has failed, whatever
+            // its callback trace looks like
+            && !self.fault_injected(a)
     }
     /// did the harness inject anything into this actor that makes a failed termination legitimate?
     pub fn fault_injected(&self, a: &ActorRun) -> bool {
@@ -476,5 +480,14 @@ impl<'a> View<'a> {
         }
         let ticks = self.cbs_of(a).filter(|c| c.cb == Cb::Tick && c.enter < seq).count();
         submitted > ticks
+    }
+}
+
+impl<'a> View<'a> {
+    pub fn vtime_at(&self, seq: u64) -> u64 {
+        match self.out.log.binary_search_by_key(&seq, |r| r.st.seq) {
+            Ok(i) => self.out.log[i].st.vtime,
+            Err(i) => self.out.log.get(i.saturating_sub(1)).map(|r| r.st.vtime).unwrap_or(0),
+        }
     }
 }
